@@ -90,6 +90,8 @@ type G struct {
 	// OnRelease, read by norace harness code on the goroutine: a plain field, not
 	// a map, so that race builds see no access).
 	Mark int
+	// Tag is a second scratch word (a string) under the same rules.
+	Tag string
 }
 
 func (g *G) String() string { return fmt.Sprintf("g%d(%s)", g.ID, g.Site) }
